@@ -141,7 +141,53 @@ structure St where
   model : State := {}
   judge : Judge := {}
 
+/-- `late k v ttl <a…>`: the four model steps of the harness choreography. -/
+def lateSteps (st : State) (k : Key) (v : Val) (ttl : Int) (a : Op) : Res :=
+  let r1 := SigModel.Transient.step st (.set k (some v) ttl)
+  let id := r1.st.nextId - 1                       -- the timer this SetTTL armed
+  let r2 := SigModel.Transient.step r1.st (.fire ttl.toNat)
+  let r3 := SigModel.Transient.step r2.st a
+  let r4 := SigModel.Transient.step r3.st (.runCb id)
+  { st := r4.st, out := r1.out ++ r2.out ++ r3.out ++ r4.out, ret := r3.ret }
+
+/-- `conc <seed> <n>`: real goroutines — nothing to predict; the two permanent listeners'
+sequences, applied to nothing, must give the final data. -/
+def judgeConc (impl : List String) : String :=
+  match impl with
+  | ["conc", "hang"] => "violated:deadlock"
+  | "conc" :: rest =>
+    let ls := rest.filter (fun t => hasPrefix "L" t)
+    let ds := rest.filter (fun t => hasPrefix "d=" t)
+    match ds, ls.mapM parseListenerTok with
+    | [d], some outs =>
+      match parseMap (dropS 2 d) with
+      | some data =>
+        let bad := outs.filter (fun o => canonMap (applyMsgs [] (o.map (·.2))) != canonMap data)
+        -- a listener that received nothing is right iff the data is empty
+        if ls.length < 2 ∧ canonMap data != [] then "violated:replica-diverged:silent-listener"
+        else if bad.isEmpty then "ok" else "violated:replica-diverged:concurrent"
+      | none => "violated:unparsable-implementation-output"
+    | _, _ => "violated:unparsable-implementation-output"
+  | _ => "violated:unparsable-implementation-output"
+
 def step (st : St) (op impl : List String) : St × String × String :=
+  match op with
+  | ["conc", _, _] =>
+    if impl.isEmpty then (st, "conc", "na") else (st, joinToks impl, judgeConc impl)
+  | "late" :: k :: v :: ttl :: rest =>
+    match toInt? ttl, parseOp rest with
+    | some t, some a =>
+      let isAdv : Bool := match a with | .advance _ => true | _ => false
+      if v == nilTok || decide (t ≤ 0) || !a.quiescent || isAdv then
+        (st, "bad-op", "na")
+      else
+        let r := lateSteps st.model k v t a
+        let (j', verdict) := match parseObs impl with
+          | some obs => st.judge.observeLate k v t a obs
+          | none => (st.judge, if impl.isEmpty then "na" else "violated:unparsable-implementation-output")
+        ({ model := r.st, judge := j' }, showRes r, verdict)
+    | _, _ => (st, "bad-op", "na")
+  | _ =>
   match parseOp op with
   | none => (st, "bad-op", "na")
   | some o =>
